@@ -333,5 +333,23 @@ func propSpecs() map[string]*PropSpec {
 	cm(c18, "H_C18", 2, 63, "virtual trees of depth 3 with <= 6 nodes", "thorough")
 	cm(c18, "H_C18", 2, 73, "virtual trees of depth 3 with <= 7 nodes", "thorough")
 	add(c18)
+
+	// ---- C06
+	c06 := &PropSpec{ID: "C06", Level: "model_checking", Assumptions: append([]string{"abstract documents are produced by the generator of harness/commonmark/gen.go (DESIGN.md Appendix D) under a node budget (blocks + inline atoms); every spelling choice of the serialiser is a solver variable; 'reduced menus' restrict some choice lists (documented in gen.go), 'full menus' use all of them", "expected HTML follows the CommonMark 0.30 mapping with this renderer's pinned conventions (character references verbatim, <br>, no closing slash), compared modulo line endings adjacent to tags outside <pre>", "constructs whose canonical spelling is ambiguous (lazy continuation, HTML block types 1-5/7, brackets in link text, adjacent same-type lists, ...) are not generated"}, commonAssumptions...), QuickSec: 200, ThoroughSec: 1700,
+		Explanation: "bounded symbolic execution of Parse+Render on the canonical serialisation of every abstract document within the node budget, with symbolic letters/punctuation/code bytes; rendered HTML compared with the HTML computed from the abstract document"}
+	for k := int64(1); k <= 4; k++ {
+		cm(c06, "H_C06_esc", k, 0, fmt.Sprintf("%d arbitrary backslash-escaped ASCII punctuation bytes", k), "quick")
+		cm(c06, "H_C06_verbatim", k, 0, fmt.Sprintf("fenced code with %d free content bytes", k), "quick")
+		cm(c06, "H_C06_verbatim", k, 1, fmt.Sprintf("indented code with %d free content bytes", k), "quick")
+	}
+	cm(c06, "H_C06", 1, 0, "documents of <= 1 node, LF, reduced menus", "quick")
+	cm(c06, "H_C06", 2, 0, "documents of <= 2 nodes, LF, reduced menus", "quick")
+	cm(c06, "H_C06", 2, 1, "documents of <= 2 nodes, CRLF, reduced menus", "quick")
+	cm(c06, "H_C06", 2, 2, "documents of <= 2 nodes, LF, full menus", "quick")
+	cm(c06, "H_C06", 3, 0, "documents of <= 3 nodes, LF, reduced menus", "quick")
+	cm(c06, "H_C06", 3, 1, "documents of <= 3 nodes, CRLF, reduced menus", "thorough")
+	cm(c06, "H_C06", 3, 2, "documents of <= 3 nodes, LF, full menus", "thorough")
+	cm(c06, "H_C06", 4, 0, "documents of <= 4 nodes, LF, reduced menus", "thorough")
+	add(c06)
 	return m
 }
